@@ -1,10 +1,14 @@
 from cfg.common import FLOAT_ASSUMPTION, NOTE_COMMON
+from cfg.train_kernels_pre import (regen as regen_train_kernels, TRAIN_KERNEL_THEOREMS_FOR, TRAIN_KERNEL_TRUSTED,
+                                   TRAIN_KERNEL_ASSUMPTION)
 
 PROP = {
     'anchors': [('train/train_state.rs', 'set_link_and_offset'), ('train/set_speed_train_sim.rs', 'solve_step'), ('train/speed_limit_train_sim.rs', 'solve_required_pwr'), ('train/speed_limit_train_sim.rs', 'solve_step'), ('train/resistance/method/strap.rs', 'update_res')],
     'blocks': ['train'],
-    'proof_modules': ['C12'],
-    'namespaces': ['Altrios.Proofs.C12'],
+    'pre': [regen_train_kernels],
+    'trusted_extra': [TRAIN_KERNEL_TRUSTED],
+    'proof_modules': ['C12', 'TrainKernels'],
+    'namespaces': ['Altrios.Proofs.C12', 'Altrios.Proofs.TrainKernels'],
     'required_theorems': [
         'Altrios.Proofs.C12.C12_ss_integrate',
         'Altrios.Proofs.C12.C12_ss_step',
@@ -20,17 +24,17 @@ PROP = {
         'Altrios.Proofs.C12.C12_sl_run',
         'Altrios.Proofs.C12.C12_forward_step_ok',
         'Altrios.Proofs.C12.C12_snap_counterexample',
-    ],
+    ] + TRAIN_KERNEL_THEOREMS_FOR['C12'],
     'nontrivial_stats': ['train.ss.step_ok', 'train.sl.step_ok'],
     'rule': 'each evaluation is one real solve_step / solve_required_pwr / set_link_and_offset call of a set-speed or '
             'speed-limited run over routes with segments from a few metres to kilometres; non-trivial = every accepted step',
-    'assumptions': [FLOAT_ASSUMPTION],
+    'assumptions': [FLOAT_ASSUMPTION] + [TRAIN_KERNEL_ASSUMPTION],
 }
 
 TEXT = {
     'design_ref': '§7.10',
     'note': NOTE_COMMON,
-    'technique': 'Lean 4 proof (step equations, locate_spec, induction over the step list) + bit-exact correspondence',
+    'technique': 'Lean 4 proof (step equations, locate_spec, induction over the step list) + bit-exact correspondence + translator tie (the straight-line train kernels are re-translated from the Rust text on every run and proved equal to the model)',
     'text': ('Kernel-checked: every accepted set-speed and speed-limited step advances time by the step size, the front by dt times the trapezoid mean, keeps rear = front - length '
              '(true of the repaired code, fix: ca9fd5c) and adds |move| to total distance (C12_ss_step, C12_ssStep, C12_sl_step); set_link_and_offset returns the unique '
              'segment with off_i < x <= off_{i+1}, base + in-segment offset = position, 0 < in-segment offset <= segment length (C12_locate*, per position, so multi-boundary '
